@@ -99,6 +99,12 @@ func init() {
 		rng := unhx(c.A["rng"])
 		msg := bytes.Join(pieces, nil)
 		out, left, err := implSeal(v, c.A["sender"], c.A["rcpts"], pieces, rng, c.A["oneshot"] == "1")
+		if f := retainedChanged(); f != nil {
+			fs = append(fs, *f)
+		}
+		if err == nil && c.A["oneshot"] == "1" {
+			retain("Seal", out)
+		}
 		got := "err " + errClass(err)
 		if err == nil {
 			got = fmt.Sprintf("ok %s %d", hx(out), left)
@@ -267,6 +273,16 @@ func init() {
 		}
 		o := implOpenStream(vd, ring, input, bufsize)
 		got := o.String()
+		// the same stream pulled the way many callers do (a fixed-size prefix, then io.Copy): same outcome
+		for _, k := range []int{1, 16, 1 << 20} {
+			consumePattern = k
+			o2 := implOpenStream(vd, ring, input, bufsize)
+			consumePattern = 0
+			if o2.String() != got {
+				fs = append(fs, Failure{Kind: "oracle", Key: "open-result-depends-on-read-pattern", Desc: fmt.Sprintf("read loop: %.150s | %d-byte prefix then io.Copy: %.150s", got, k, o2.String())})
+				break
+			}
+		}
 		m := strings.Join(h.rn.Call("open", c.A["vd"], c.A["keys"], c.A["senders"], hx(input)), " ")
 		if strings.Contains(m, "Unmodelled") {
 			h.res.Unmodelled++
